@@ -56,6 +56,25 @@ def gen_cases(seed, tier):
             dom = _polyhole(rng)
         elif wk == "sliver":
             dom = _sliver(rng, k)
+            if i % 3 == 0:
+                # thin strips (side ratio 20-150, right angles, any direction) for the density samplers: a grid by density
+                # holds at most ceil(d * area) points however thin the strip is
+                wk = c["wk"] = "strip"
+                o_, a0_ = rng.uniform(-2, 2, 2), rng.uniform(0, 2 * math.pi)
+                l1_, l2_ = float(rng.uniform(4, 12)), float(rng.uniform(0.08, 0.2))
+                d1_ = l1_ * np.array([math.cos(a0_), math.sin(a0_)])
+                d2_ = l2_ * np.array([-math.sin(a0_), math.cos(a0_)])
+                if rng.random() < 0.5:
+                    d1_, d2_ = d2_, d1_
+                sp_ = {"prim": "parallelogram", "var": "x", "origin": [float(o_[0]), float(o_[1])],
+                       "c1": [float(o_[0] + d1_[0]), float(o_[1] + d1_[1])], "c2": [float(o_[0] + d2_[0]), float(o_[1] + d2_[1])]}
+                kk_ = int(rng.choice([0, 0, 1]))
+                dom = {"spec": sp_, "rows": gen_geo.param_rows(rng, kk_), "k": kk_,
+                       "info": {"kind": "prim", "dim": 2, "dep": False, "relations": ["strip"], "desc": "P~strip"}}
+            elif i % 3 == 1:
+                # parallelograms / triangles whose corner order flips between the parameter rows (mixed orientations in one batch)
+                wk = c["wk"] = "flip"
+                dom = gen_geo.flip_parallelogram(rng, kinds=("parallelogram", "triangle"))
         elif wk == "product":
             dom = _indep_product(rng, k)
         elif wk == "moved":
@@ -68,6 +87,8 @@ def gen_cases(seed, tier):
             dom["info"] = dict(dom["info"], scale=S)
         c.update(spec=dom["spec"], rows=dom["rows"], info=dom["info"], k=dom["k"])
         c["dens"] = [float(x) for x in rng.choice([1.5, 7, 30, 200, 1200, 3000], 2)]
+        if c["wk"] == "strip":
+            c["dens"] = [float(x) for x in rng.choice([2.5, 4.2, 9, 30], 2)]
         c["uservol"] = float(rng.uniform(0.5, 9))
         cases.append(c)
     return cases
@@ -331,7 +352,7 @@ def run_case(case):
     mech = {"wk": wk, "root": info["kind"], "dep": bool(info["dep"]), "k": _kcls(k), "scale": info.get("scale", 1.0)}
     spec = case["spec"]
     m = node.measure(env, kk)
-    if wk in ("prim", "flagged", "product", "moved") and m is not None:
+    if wk in ("prim", "flagged", "product", "moved", "strip", "flip") and m is not None:
         rt0 = 1e-5
         if isinstance(node, geo.Bool) and node.op == "cut":
             ma_, mb_ = node.a.measure(env, kk), node.b.measure(env, kk)
@@ -390,7 +411,7 @@ def run_case(case):
             res["viol"].append(viol("exception", "set_volume on %s: %s in %s: %s" % (info["desc"], type(e).__name__, exc_site(e), str(e)[:200]),
                                     exc=type(e).__name__, site=exc_site(e), call="set_volume", **mech))
     # ---- density sampling counts (one parameter row at most: documented restriction)
-    if k <= 1 and wk in ("prim", "density_bool", "moved", "product"):
+    if k <= 1 and wk in ("prim", "density_bool", "moved", "product", "strip"):
         _density(case, D, node, Pp, env, res, mech, info)
     res["nontrivial"] = res["judged"] > 0
     return res
@@ -468,7 +489,7 @@ def _density(case, D, node, Pp, env, res, mech, info):
             res["counters"]["density_grid_calls"] = res["counters"].get("density_grid_calls", 0) + 1
             if is_prim:
                 res["judged"] += 1
-                if g > math.ceil(lam * (1 + 2e-6)) or g == 0 and lam >= 4:
+                if g > math.ceil(lam * (1 + 2e-6)) or (g == 0 and lam >= 4 and case.get("wk") != "strip"):
                     res["viol"].append(viol("density_grid_count", "%s of %s: sample_grid(d=%.5g) returned %d points, ceil(d*measure) = %d" %
                                             (tname, info["desc"], d, g, math.ceil(lam)), fn="grid", **mm))
 
